@@ -62,6 +62,7 @@ def asm_to_vm():
     fn = S.item(ASM, r'fn instr_to_vminstr\(')
     _, variants = asm_variants()
     out = {}
+    narrow = []
     for name, info in variants.items():
         head, guard, body, is_block = S.match_arm(fn, r'Instr::%s\b' % name, ' ' * 8)
         if guard:
@@ -86,10 +87,13 @@ def asm_to_vm():
             m = re.search(r'constants\s*\.\s*(int|float|string)_constants\s*\.\s*try_get_id\((\w+)\)', a)
             if m:
                 args.append(({'int': 'int_imm', 'float': 'float_imm', 'string': 'str_imm'}[m.group(1)], m.group(2)))
+                if re.search(r'\bas u16\b', a):
+                    narrow.append((name, m.group(1)))
                 continue
             m = re.search(r'\b(%s)\b' % '|'.join(map(re.escape, binders)), a) if binders else None
             args.append(('other', m.group(1) if m else None))
         out[name] = dict(vm=bm.group(1), binders=binders, args=args)
+    out['__narrow__'] = narrow
     return out
 
 
@@ -141,6 +145,7 @@ def layout():
     dest = position of the register written by the arm's LAST stack access.
     All None when the arm does not have that shape."""
     m = asm_to_vm()
+    m.pop('__narrow__', None)
     out = {}
     for name, mm in m.items():
         ent = dict(src1=None, src2=None, dest=None, imm=None, vm=mm['vm'], regular=False, events='')
@@ -409,3 +414,18 @@ def reflect_matches(impl_text, method):
         raise S.SliceError("impl Instr::%s is not a single matches!(self, ..)" % method)
     pats = re.sub(r'//[^\n]*', '', m.group(1)).strip().rstrip(',')
     return pats
+
+
+def verus_narrow_imm(variants):
+    """Opcodes whose constant-table operand is narrowed `as u16` by instr_to_vminstr."""
+    nar = asm_to_vm()['__narrow__']
+    o = []
+    for kind in ('int', 'float'):
+        o.append("/// from instr_to_vminstr: the %s-constant index of this opcode is cast `as u16`" % kind)
+        o.append("spec fn is_%s_imm(i: Instr) -> bool {\n    match i {" % kind)
+        for n, k in nar:
+            if k == kind:
+                info = variants[n]
+                o.append("        Instr::%s%s => true," % (n, '' if not info['fields'] else '(..)'))
+        o.append("        _ => false,\n    }\n}")
+    return '\n'.join(o) + '\n', nar
